@@ -118,6 +118,15 @@ PROPS["C07"] = B("cases are 1-3 queries (ack on/off, timeouts 0.5-3 s) issued co
 PROPS["C28"] = B("cases are 1-3 user tasks x 1-2 subscriptions (Stream, Monitor, Query) against the real RPC client connected over net.Pipe to a scripted agent that acknowledges, pushes 0-3 records per subscription, refuses some subscriptions and may drop the connection mid-stream, with Stop(handle) and Close() issued concurrently after 0-5 yields; plus the PRNG-chosen schedule at every lock/channel yield of the instrumented rpc_client.go (reader goroutine vs. users); distinct = distinct (workload, schedule) hash; non-trivial = more than one decision point with several runnable goroutines",
     "Seeded schedule exploration of the real client (overlay copy of client/rpc_client.go: yields, cooperative mutexes, dialable over net.Pipe). Oracle: the process survives (send on closed channel and double close are fatal and attributed to the run), every call returns, and every subscriber channel whose Stop/Close returned is closed. Exact replay.",
     quick=(3000, 60), thorough=(200000, 1200))
+PROPS["C08"] = A("cases are seeded sequences of crafted queries against one real node with generated tags: node-name filters, tag filters with valid and invalid regular expressions, undecodable filter bytes and unknown filter types, ack and no-broadcast flags, names with and without the internal prefix, each delivered 1-3 times; the origin is a second real node so acknowledgement packets are captured on the simulated network; distinct = distinct step-list hash; non-trivial = at least one query delivered",
+    "Seeded exploration against an executable reference model of filter semantics (name in every node list; every tag pattern compiles and matches the tag value, missing = empty; undecodable/unknown filters exclude). Observed per query: deliveries on the application channel, acknowledgement packets to the origin, messages queued for re-broadcast. Exact replay. Inputs only meet one node, but what is observed leaves through seams the simulator owns (transport, broadcast queue).",
+    quick=(4000, 45), thorough=(200000, 900))
+PROPS["C33"] = A("cases draw UserEventSizeLimit, QuerySizeLimit, QueryResponseSizeLimit and the relay factor per run and issue UserEvent/Query/Respond calls with sizes around each limit and around the hard 9 KiB limit on a real node in a 3-node cluster; distinct = distinct step-list hash; non-trivial = at least one call made",
+    "Seeded exploration with an invariant monitor on everything that leaves the node (broadcast queues and simulated-network packets): nothing above its limit is queued or sent; a rejected call has no local delivery and no queue growth; a call the size model says is within all limits succeeds. Exact replay.",
+    quick=(3000, 45), thorough=(150000, 900))
+PROPS["C35"] = A("cases build a member view by history (up to 8 ghost members with ProtocolMax 2-5 in status alive/leaving/left/failed, changed between replies) and let the real node reply to queries with relay factor 0-8 and 255, by acknowledgement and by Respond; the seeded global PRNG drives the node's random relay choice; distinct = distinct step-list hash; non-trivial = at least one reply",
+    "Seeded exploration; packets captured on the simulated network: exactly one direct reply to the origin; relayed copies at most k, through pairwise distinct alive members with ProtocolMax>=5, never the node itself, none when it knows fewer than k+1 members; each envelope names the origin and carries the direct reply byte-for-byte. Exact replay.",
+    quick=(4000, 45), thorough=(200000, 900))
 PROPS["C14"] = D("cases are seeded histories against a real Serf node whose snapshot lives on simfs: user events and queries delivered by gossip and push/pull, real joins (with/without ignoreOld) against a real peer holding events, fake-time advances around the 500 ms flush interval, and 1-3 restarts (crash: only bytes already handed to the OS survive; or clean shutdown) followed by old and new messages; distinct = distinct step-list hash; non-trivial = messages injected after a restart",
     "Seeded exploration; E and Q are read by the real recovery from the image the restart starts from; any user event with time <= E or query with time <= Q on the application channel after the restart is a violation. Exact replay.",
     quick=(2500, 60), thorough=(100000, 1200),
